@@ -177,6 +177,7 @@ class Facts:
             return i
         self._seen_labels.add(h)
         self._labels.append(i)
+        self.add(z3.Implies(ISANC(i), ANCIDX(i) >= 0))        # ancilla numbers are natural numbers
         for g in self.ghosts:
             self._label_facts(g, i)
         self.used.add("L2-range")
@@ -425,7 +426,8 @@ class Facts:
         """the label '__a%d' % n ; distinct numbers give distinct labels"""
         e = anc(n)
         self.label(e)
-        self.add(z3.And(ISANC(e), ANCIDX(e) == n))
+        # '__a%d' % n is an ancilla name with number n for n >= 0 (for a negative n the string is not of that form)
+        self.add(z3.Implies(n >= 0, z3.And(ISANC(e), ANCIDX(e) == n)))
         if not hasattr(self, "_ancs"):
             self._ancs = []
         for m in self._ancs:
